@@ -149,7 +149,13 @@ class VCSAPI:
     def status(self, required_files: typ.Set[str]) -> typ.List[str]:
         """Get status lines."""
         status_output = self('status')
-        status_items  = [line.split(" ", 1) for line in status_output.splitlines()]
+        status_items: typ.List[typ.Tuple[str, str]] = []
+        for line in status_output.splitlines():
+            # NOTE: git porcelain lines are "XY <path>" (X or Y may be a space),
+            #   hg lines are "X <path>". Renames are "XY <orig> -> <path>".
+            status, filepaths = line[:2].strip(), line[2:]
+            for filepath in filepaths.split(" -> "):
+                status_items.append((status, filepath))
 
         return [
             filepath.strip()
